@@ -223,6 +223,7 @@ def install(world):  # noqa: F811
             ("multi-disp-minimal-reduction", f"implies(multi_disp * volume > self.max_volume, ({MD_OUT} + 1) * volume > self.max_volume)", ["C06", "C09"]),
             ("multi-disp-unchanged-if-fits", f"implies(multi_disp * volume <= self.max_volume, {MD_OUT} == multi_disp)", ["C06", "C09"]),
         ],
+        updates={"self.__records__": f"records(self) + [gwl_record('R', {RD_FIELDS} + ([] if is_none(exclude_wells) else [fmt_int(e) for e in sorted_ints(exclude_wells)]))]"},
         exc_ensures=[UNCHANGED],
         policy={PREP: "contract"},
         native={"call": "(self.reagent_distribution(src_rack_label, src_start, src_end, dst_rack_label, dst_start, dst_end, volume=volume, diti_reuse=diti_reuse, multi_disp=multi_disp, exclude_wells=exclude_wells, liquid_class=liquid_class, direction=direction, src_rack_id=src_rack_id, src_rack_type=src_rack_type, dst_rack_id=dst_rack_id, dst_rack_type=dst_rack_type), list(self))[1]",
